@@ -2,7 +2,8 @@
 # usage: tools/selftest.sh <property-id>
 # Must-fail corpus: every recorded seeded change that this property's check is expected to detect (meta.json: the seed's own
 # property, or a property listed under "also") is applied to a scratch copy of /repo, the quick check is run on the copy and
-# must report a VIOLATION. Prints one line per seed; never changes /repo. A miss is reported, not turned into a failure of
+# must report a VIOLATION (meta.json "detected_by", when present, names the checks that are expected to - a few seeds are
+# detected by a neighbouring property's check only). Prints one line per seed; never changes /repo. A miss is reported, not turned into a failure of
 # the check of the unchanged tree.
 cd "$(dirname "$0")/.."
 export GOFLAGS=-mod=mod GOPROXY=off GOSUMDB=off GOTOOLCHAIN=local
@@ -14,7 +15,7 @@ for SD in seeded seeded2 seeded3 seeded4 seeded5 seeded6; do
     expect=$(python3 -c "
 import json
 m=json.load(open('$d/meta.json'))
-ps=[m['property']]+m.get('also',[])
+ps=m.get('detected_by') or ([m['property']]+m.get('also',[]))
 print('yes' if '$id' in ps and not m.get('not_detected') else 'no')")
     [ "$expect" = yes ] || continue
     out=$(SEED_DIR=$SD SELFTEST_ONLY=$id tools/run_seeds.sh $(basename $d) 2>&1 | tail -1)
